@@ -117,6 +117,9 @@ def _one(args):
             continue     # H_0 = 0 is refused up front by the library (ValueError): not an accepted input
         if offset_after:
             hermitian.add_offset(inst)
+        if 30 <= idx < 38:
+            # stratum "tiny term": the last parameter's first-order term has entries of ~1e-9
+            hermitian.shrink_parameter(inst)
         if vtype == "sympy" and idx % len(VTYPES) == 1 and inst["k"] >= 2:
             # the Hamiltonian as ONE sympy matrix in the perturbative symbols (mixed monomials x*y, x**2*y ...
             # occur among the randomly chosen multi-orders): the library Taylor-expands it; the truth stays
@@ -132,6 +135,9 @@ def _one(args):
             inst["N"] = min(inst["N"], 3)
         # every other numpy / sparse instance presents integer-valued terms (H_0 = np.diag of ints) in int64
         inst["int_dtype"] = vtype in ("numpy", "sparse") and (idx // len(VTYPES)) % 2 == 0
+        if not offset_after and (corner == "degenerate_fd" or idx % 2 == 1):
+            # stratum "rounding-level splitting" (float value types, degenerate pair in a fully diagonalised block)
+            hermitian.add_jitter(inst)
         desc = hermitian.describe(inst)
         try:
             sess = hermitian.make_session(inst, idx + 1, p, spectrum=1 if (spectrum and inst["d"] <= 5) else 0)
